@@ -15,8 +15,10 @@ mod registers;
 mod setting;
 mod socket;
 
+mod isa;
 mod m_bus;
 mod m_cost;
+mod m_step;
 mod util;
 
 use util::*;
@@ -33,6 +35,7 @@ pub trait Mode {
 fn mode_for(name: &str) -> Option<Box<dyn Mode>> {
     match name {
         "cost" => Some(Box::new(m_cost::CostMode::new())),
+        "step" => Some(Box::new(m_step::StepMode::new())),
         "bus09" => Some(Box::new(m_bus::BusMode::new(9))),
         "bus16" => Some(Box::new(m_bus::BusMode::new(16))),
         "bus17" => Some(Box::new(m_bus::BusMode::new(17))),
